@@ -29,7 +29,7 @@ H.append({"name":"H_safe_bsdiff","tiers":Q,"scale":"w","bounds":"optimized patch
   "param_sets":[{"ns":ns,"na":na,"ins":i,"edit":e} for ns in (13,14,17) for na in (ns,ns-1) for i in (1,5) for e in (-1,9)]})
 H.append({"name":"H_safe_real","tiers":Q,"max_steps":2000000000,"bounds":"REGIME R (no constant scaled: 64 KiB blocks, 32 KiB copy buffers): old file of 3 blocks + 100-byte tail (concrete), new = block 0 rewritten, so one BLOCK_RANGE run over blocks 1..3; one symbolic damaged byte in block 1, 2 or 3 of the run",
   "param_sets":[{"nb":3,"blk":b} for b in (1,2,3)]})
-H.append({"name":"H_safe","tiers":T,"scale":"b4","bounds":"B=4: pristine old in {0,3,4,5,8,9}, damaged 0..old+B+1","max_seconds":1500,"param_sets":grid(4,[0,3,4,5,8,9],[0,1,2,3])})
+H.append({"name":"H_safe","tiers":T,"scale":"b4","bounds":"B=4: pristine old in {0,3,4,5,8}, damaged 0..old+B+1","max_seconds":900,"param_sets":grid(4,[0,3,4,5,8],[0,1,2,3])})
 H.append({"name":"H_safe","tiers":T,"scale":"b2","bounds":"B=2: pristine old 6..7","max_seconds":1500,"param_sets":grid(2,[6,7],[0,1,2,3])})
 json.dump({"property":"C09","package":"c09","scale":scale,"harnesses":H,
  "stubs":["os -> in-memory file system model (copy buffer B/2, so reads never straddle a block, as 32 KiB is to 64 KiB)","crypto/md5 -> injective model: strong-hash collisions excluded","protobuf/wire -> codec model"],
